@@ -882,7 +882,8 @@ def gen_case(rng, variant):
     case = {"variant": variant, "callers": callers, "schedule": sched}
     if not variant.startswith("bare") and rng.random() < 0.3:
         case["reuse"] = [rng.randrange(3), rng.randrange(2)]      # the decorator object also decorates other functions
-    if not variant.startswith("bare") and not recalc and rng.random() < 0.2:
+    # (not on stack_finer: a get-disabled execution re-stores under ONE outer key, the two layers then hold different values)
+    if not variant.startswith("bare") and variant != "stack_finer" and not recalc and rng.random() < 0.2:
         # one or two callers have single commands disabled in their context (1 get, 2 set, 3 both)
         case["ctl"] = {str(c_): rng.choice([1, 1, 2, 3]) for c_ in rng.sample(range(1, m + 1), rng.choice([1, 2]))}
     if m >= 3 and "ctl" not in case and rng.random() < 0.25:      # (a spawned task would inherit the disabled commands)
@@ -992,7 +993,7 @@ def sharing_programs(thorough: bool):
     progs.append(([[1, 1, 1, "r", 7, 0], [2, 1, 1, "e", 1, 1], [3, 1, 0, "r", 9, 0]], KEYED, {"cancel_budget": cb}))
     # callers whose CONTEXT has single commands disabled (get / set / both - not the full disable) overlap with ordinary
     # callers of the key: they join, and are joined, like anybody else; every facade variant
-    NG_FACADE = [v for v in FACADE if not sfimpl.GATED[v]]
+    NG_FACADE = [v for v in FACADE if not sfimpl.GATED[v] and v != "stack_finer"]
     three = [[1, 0, 1, "r", 7, 0], [2, 0, 1, "e", 3, 0], [3, 0, 0, "r", 9, 0]]
     progs.append((three, NG_FACADE, {"ctl": {"2": 1, "3": 2}, "cancel_budget": 0}))
     progs.append((three, NG_FACADE[0::3] if not thorough else NG_FACADE[0::2], {"ctl": {"1": 3, "3": 1}, "cancel_budget": cb}))
